@@ -18,7 +18,7 @@ import streams
 
 PID = "C19"
 PERIODS = (-1, 0, 1, 2, 3, 4, 7, 8, 15, 16)
-QUICK_PERIODS = (-1, 0, 1, 2, 3, 4, 8, 16)
+QUICK_PERIODS = (-1, 0, 1, 2, 3, 4, 8)
 
 
 def nmax(p):
